@@ -21,7 +21,7 @@ PROPERTY = 'C09'
 LEVEL = 'exploration'
 RULE = ('Texts from (grammar) a Hypothesis line grammar with every field '
         'independently valid/invalid, (tokens) all sequences of 1..4 (quick) '
-        '/ 1..5 (thorough) tokens over a 24-token alphabet, (escapes) every '
+        '/ 1..5 (thorough) tokens over a 25-token alphabet, (escapes) every '
         '\\xHH and \\uHHHH value and \\UHHHHHHHH over 0..0x11FFFF (quick: '
         'stride 17 + boundaries) plus 32-bit specials in 3 contexts x 2 hex '
         'cases, (mutations) character-level mutations of valid Manifests. '
@@ -128,6 +128,9 @@ INVALID_PATHS = [
     '\\', 'a\\', 'a\\q', '\\x4', '\\xZZ', 'a\\x4g', '\\u123', '\\u12G4',
     '\\U0011000', '\\U00110000', '\\UFFFFFFFF', '\\U7FFFFFFF', '\\U80000000',
     '\\X41', '\\\\', '\\n', '\\ ',
+    # decimal digits that are not ASCII are not hex digits
+    '\\x\u0664\u0661', '\\u00\uff14\uff11', '\\U0000004\uff11', 'a\\x4\u0661b',
+    '\\u\u0966\u0966\u0967\u0968',
 ]
 DONTCARE_PATHS = ['\\uD800', '\\udfff', '\\U0000DC00', 'a\x01b', '\x7f']
 VALID_SIZES = ['0', '1', '12', '12345', '007', str(2 ** 64), str(2 ** 31)]
@@ -269,6 +272,7 @@ def strat_mutations(tier):
 
 TOKENS = ['TIMESTAMP', 'MANIFEST', 'IGNORE', 'DATA', 'DIST', 'EBUILD', 'MISC',
           'AUX', 'FOO', 'a', 'a/b', '/a', '\\x2Fa', '\\x41', '\\', '\\u12',
+          '\\x4\u0661',
           '0', '12', '-1', '1e3', 'MD5', 'abc', '2020-01-01T00:00:00Z',
           '2020-13-01T00:00:00Z']
 
